@@ -297,12 +297,13 @@ def replay_coldwarm(prop, data):
     from . import scenarios
     L = load_lentil()
     scn = scenarios.get(data['scenario'], data.get('property', prop))
+    # the cold execution first, in a fork taken while this process has not executed anything yet
+    cold = fork_map(cold_worker, [{'scn': data['scenario'], 'prop': data['property'],
+                                   'verif_seed': data['verif_seed'], 'index': data['index']}], 1, 300)[0]
     hist = None
     for i in data['warm_indices'] + [data['index']]:
         run = make_run(scn, data['property'], data['verif_seed'], i)
         hist = scn.execute(L, run)['hist']
-    cold = fork_map(cold_worker, [{'scn': data['scenario'], 'prop': data['property'],
-                                   'verif_seed': data['verif_seed'], 'index': data['index']}], 1, 300)[0]
     bad = hist != cold
     v = [dict(data['violation'])] if bad else []
     return bad, v
